@@ -240,7 +240,7 @@ def analyse(ctx, jobs, res, pid, do_predict=True, do_update=True):
                             ctx.violation(f"sensor {key!r}: with a reading equal to the predicted reading (innovation exactly zero) the posterior covariance is not P - K H P",
                                           {"definition": d, "inputs": p, "sensor": key, "reading": own["reading"], "observed": own["cov"], "expected": ou["cov"]},
                                           key="update-zero-innovation-cov")
-                if not is_sym(u["cov"], 1e-9):
+                if ou is not None and not is_sym(u["cov"], 1e-9):     # (only where the update is well conditioned)
                     ctx.violation("posterior covariance is not symmetric", {"definition": d, "inputs": p, "sensor": key, "observed": u["cov"]}, key="update-asym")
                 if not u["inputs_unchanged"]:
                     ctx.violation("sensor_model modified its inputs", {"definition": d, "inputs": p, "sensor": key}, key="update-mutates")
